@@ -1,8 +1,8 @@
 #!/bin/sh
-# validate_all_seeds.sh <seeds dir> <tier> : runs validate_seed.sh for every <seeds>/<Cxx>/<m>/
-S=${1:-/verif/.work/seeds}; TIER=${2:-quick}
-for d in $S/C*/m*; do
-  p=$(basename $(dirname $d)); m=$(basename $d)
-  echo "=== $p/$m ($TIER)"
-  /verif/tools/validate_seed.sh $d $p $TIER 2>&1 | grep -E "^RESULT|^CHECK|^VIOLATION|^OK|^unconfirmed|MISMATCH|INFRA|^   (assert|panic|race|deadlock)|FAIL|cannot" | cut -c1-230 | head -14
+# validate_all_seeds.sh [tier] : runs validate_seed.sh for every /verif/seeded/<Cxx-mk>/ and prints a report
+TIER=${1:-quick}
+for d in /verif/seeded/C*-m*; do
+  id=$(basename $d); p=${id%%-*}
+  echo "=== $id ($TIER)"
+  /verif/tools/validate_seed.sh $d $p $TIER 2>&1 | grep -E "^RESULT|^CHECK|^VIOLATION|^OK|^unconfirmed|MISMATCH|INFRA|^   (assert|panic|race|deadlock)|cannot" | cut -c1-230 | head -12
 done
